@@ -205,6 +205,8 @@ RULES = [
     ("X-VARIANT", "Variant constructors, text renderings and coercion order [shared]", lambda ctx: __import__("extra").variant_constructors(ctx)),
     ("X-DATEALIKE", "unquoted date literals reach the functions whole (lexer look-ahead) [shared]", lambda ctx: __import__("extra").looks_like_date_rule(ctx)),
     ("X-LITVALUE", "a literal argument evaluates to the text written in the query [shared]", lambda ctx: __import__("extra2").literal_is_its_text(ctx)),
+    ("C02-R4", "quoted literals are never resolved as column / function names [shared with C02]", lambda ctx: __import__("c02").r4(ctx)),
+    ("X-LEXEMS", "every lexem but an empty quoted string reaches the grammar (a blank string is a value) [shared]", lambda ctx: __import__("extra2").lexems_are_kept(ctx)),
 ]
 
 EXPLANATION = (
